@@ -395,16 +395,34 @@ func c05Validator(e *Env) {
 // constCompare: cond is `x ==/!= const`, either written out or through a one-line predicate of module
 // code whose body is `return <param> ==/!= const` (e.g. Scope.IsShared); x is then the actual argument.
 func constCompare(cond ssa.Value) (x ssa.Value, c *ssa.Const, op token.Token, ok bool) {
+	return constCompareSub(cond, nil, 0)
+}
+
+// constCompareSub follows one-line predicates: `return p == K`, `return p.is(K)` with `is(o) = p == o`, …;
+// subst maps the parameters of the predicate being read to the values of its caller.
+func constCompareSub(cond ssa.Value, subst map[*ssa.Parameter]ssa.Value, depth int) (x ssa.Value, c *ssa.Const, op token.Token, ok bool) {
+	if depth > 4 {
+		return nil, nil, 0, false
+	}
+	res := func(v ssa.Value) ssa.Value {
+		if p, isP := v.(*ssa.Parameter); isP {
+			if a, has := subst[p]; has {
+				return a
+			}
+		}
+		return v
+	}
 	switch v := cond.(type) {
 	case *ssa.BinOp:
 		if v.Op != token.EQL && v.Op != token.NEQ {
 			return nil, nil, 0, false
 		}
-		if k, isC := v.Y.(*ssa.Const); isC && k.Value != nil {
-			return v.X, k, v.Op, true
+		l, r := res(v.X), res(v.Y)
+		if k, isC := r.(*ssa.Const); isC && k.Value != nil {
+			return l, k, v.Op, true
 		}
-		if k, isC := v.X.(*ssa.Const); isC && k.Value != nil {
-			return v.Y, k, v.Op, true
+		if k, isC := l.(*ssa.Const); isC && k.Value != nil {
+			return r, k, v.Op, true
 		}
 	case *ssa.Call:
 		callee := v.Call.StaticCallee()
@@ -415,15 +433,13 @@ func constCompare(cond ssa.Value) (x ssa.Value, c *ssa.Const, op token.Token, ok
 		if !isRet || len(ret.Results) != 1 {
 			return nil, nil, 0, false
 		}
-		px, k, o, ok2 := constCompare(ret.Results[0])
-		if !ok2 {
-			return nil, nil, 0, false
-		}
+		sub2 := map[*ssa.Parameter]ssa.Value{}
 		for i, prm := range callee.Params {
-			if prm == px && i < len(v.Call.Args) {
-				return v.Call.Args[i], k, o, true
+			if i < len(v.Call.Args) {
+				sub2[prm] = res(v.Call.Args[i])
 			}
 		}
+		return constCompareSub(ret.Results[0], sub2, depth+1)
 	}
 	return nil, nil, 0, false
 }
